@@ -29,6 +29,7 @@ type runOpts struct {
 	NoOptimize bool
 	SortKey    string // "" | "a:asc" | "a:desc"
 	Timeout    time.Duration
+	Source     *data.Source // nil: reader inputs; otherwise a lake (program starts with `from <pool>`)
 }
 
 type runResult struct {
@@ -76,7 +77,11 @@ func runProgram(ctx context.Context, program string, o runOpts, inputs ...string
 	}
 	rctx := runtime.NewContext(ctx, zctx)
 	defer rctx.Cancel()
-	job, err := compiler.NewJob(rctx, seq, fileSource, nil)
+	src := fileSource
+	if o.Source != nil {
+		src = o.Source
+	}
+	job, err := compiler.NewJob(rctx, seq, src, nil)
 	if err != nil {
 		return runResult{Err: fmt.Errorf("analyze: %w", err)}
 	}
